@@ -40,6 +40,13 @@ THEOREMS = [
     "OllamaVerif.C17.openai_stream_failure_swallowed",
     "OllamaVerif.C17.openai_stream_failure_reported_fixed",
     "OllamaVerif.C17.tools_equiv_fixed",
+    "OllamaVerif.C17.one_final_generate_faults",
+    "OllamaVerif.C17.generate_outcome_equiv",
+    "OllamaVerif.C17.one_final_chat_faults",
+    "OllamaVerif.C17.chat_outcome_equiv",
+    "OllamaVerif.C17.one_final_generate_fixedD",
+    "OllamaVerif.C17.one_final_chat_fixedD",
+    "OllamaVerif.C17.tokenize_failure_after_done",
     "OllamaVerif.C17.F17a_split_loses_call",
     "OllamaVerif.C17.F17b_index_mismatch",
     "OllamaVerif.C17.F17c_openai_stream_error_swallowed",
